@@ -177,3 +177,15 @@ Example accepted_nontrivial :
                /\ flat_map graph_paths gs = doc_paths t
                /\ star_ok 0 [W [97%Z]; TC CColon; LBR; W [98%Z]; COMMA; W items_word; TC CDot; W [99%Z]; RBR; TC CDot; STAR] = true.
 Proof. vm_compute. eexists _, _. repeat split. Qed.
+
+(* Non-vacuity for the spelling theorems: " a . [ b , c ] " and "a.[b,c]" compile to the same graphs; the graph of
+   "a.[c,b]" is equal to it by ObserverGraph.__eq__ although the children are in another order; "a.[b,c]" and
+   "a.[b,d]" are not equal. *)
+Example spellings_nontrivial :
+  let a := CStart 97 in let b := CStart 98 in let c := CStart 99 in let d := CStart 100 in
+  compile_str [CWs; a; CWs; CDotC; CWs; CLbr; CWs; b; CWs; CCommaC; CWs; c; CWs; CRbr; CWs]
+    = compile_str [a; CDotC; CLbr; b; CCommaC; c; CRbr]
+  /\ outcome_same (compile_str [a; CDotC; CLbr; c; CCommaC; b; CRbr]) (compile_str [a; CDotC; CLbr; b; CCommaC; c; CRbr]) = true
+  /\ compile_str [a; CDotC; CLbr; c; CCommaC; b; CRbr] <> compile_str [a; CDotC; CLbr; b; CCommaC; c; CRbr]
+  /\ outcome_same (compile_str [a; CDotC; CLbr; b; CCommaC; d; CRbr]) (compile_str [a; CDotC; CLbr; b; CCommaC; c; CRbr]) = false.
+Proof. vm_compute. repeat split; try reflexivity. discriminate. Qed.
